@@ -127,8 +127,8 @@ def run():
     if PID == 'C14':
         from fractions import Fraction as F
         SI = {'n': F(1, 10**9), 'u': F(1, 10**6), 'm': F(1, 1000), 'c': F(1, 100), 'd': F(1, 10), '': F(1), 'da': F(10), 'k': F(1000), 'M': F(10**6)}
-        vals = ['1.234', '0.04', '5', '123.456', '0.5', '7e-3', '250']
-        for v in vals[:max(2, min(len(vals), N))]:
+        vals = ['1.234', '0.04', '5', '123.456', '0.5', '7e-3', '250', '1E-3', '2.5e+2']
+        for v in vals[:max(2, min(len(vals), N + 2))]:
             for pn in SI:
                 for base in ('mol', 'g', 'L', 'U'):
                     if base == 'U' and pn != '':      # activity units take no prefix in the documented grammar
@@ -158,7 +158,11 @@ def run():
                 for form, (nb, db, f) in (('M', ('mol', 'L', F(1))), ('m', ('mol', 'g', F(1, 1000)))):
                     count += 1
                     text = f'{v} {p}{form}'
-                    got = Unit.parse_concentration(text)
+                    try:
+                        got = Unit.parse_concentration(text)
+                    except ValueError as e:
+                        note('concentration-rejected', f"parse_concentration('{text}'): {e}")
+                        continue
                     exp = F(v) * SI[p] * f
                     if not close(got[0], float(exp), 1e-12, 0) or tuple(got[1:]) != (nb, db):
                         note('concentration-value', f"parse_concentration('{text}') = {got!r}, denotes {float(exp)!r} {nb}/{db}")
